@@ -8,6 +8,7 @@ from `machine/disk/mem.go` / `file.go`; `facts_ok` pins every declaration of the
 and the correspondence runs the six real variants against the compiled models.
 -/
 import GooseVerif.Lemmas.Disk
+import GooseVerif.Lemmas.ShortWrite
 import GooseVerif.Gen.DiskFacts
 import GooseVerif.Expected.DiskFacts
 
@@ -136,7 +137,71 @@ theorem no_alias_read (regs : Regs) (h : Heap) (a i : Nat) (x : UInt8) (blk : By
     r1.2 = .readBuf h.length blk ∧ (step BS (specImpl BS) s2 (.read a)).2 = .readBuf (h.length + 1) blk := by
   simp [step, specImpl, hr, Heap.get, hi]
 
+/-! ### the retry loop of `FileDisk.Write` under short transfers (Model/ShortWrite)
+
+`fileImpl` above models `pwrite` as transferring the whole block.  The kernel may transfer less without an error; `Write` then
+retries the rest.  These theorems quantify over EVERY schedule of answers (errors, short counts, counts of zero) and say that the
+retry loop keeps the register reading: a `Write` that returns has stored exactly its block, and — returned or panicked — it has
+touched no byte outside that block.  The text of the loop is pinned by `facts_ok`; the check's short-write scenarios run the real
+loop under a file-size limit that cuts the transfer at eight different points. -/
+
+open GooseVerif.Model.ShortWrite in
+/-- A `Write` that returns normally has stored exactly its block, whatever the kernel did on the way. -/
+theorem write_returns_exact (v : List Byte) (off : Nat) (f g : File) (as : List Ans)
+    (h : writeLoop v off f 0 as = some (.ok g)) : g = written f v off := by
+  have := (loop_inv v off f as f 0 (Nat.zero_le _) (partial_zero f v off) _ h).2 g rfl
+  funext i
+  exact this i
+
+open GooseVerif.Model.ShortWrite in
+/-- Returned or panicked, after any schedule: no byte outside the block has changed (the other registers are independent of
+this `Write` even when it fails half-way). -/
+theorem write_frame_always (v : List Byte) (off : Nat) (f : File) (as : List Ans) (out : Model.ShortWrite.Out)
+    (h : writeLoop v off f 0 as = some out) (i : Nat) (hi : i < off ∨ off + v.length ≤ i) : out.file i = f i := by
+  obtain ⟨⟨m, hm, hp⟩, _⟩ := loop_inv v off f as f 0 (Nat.zero_le _) (partial_zero f v off) _ h
+  rw [hp i]
+  have : ¬ (off ≤ i ∧ i < off + m) := by omega
+  simp [this]
+
+open GooseVerif.Model.ShortWrite in
+/-- A panicked `Write` leaves a prefix of the new block over the old one — never bytes of the new block at the wrong place. -/
+theorem write_panic_prefix (v : List Byte) (off : Nat) (f g : File) (as : List Ans)
+    (h : writeLoop v off f 0 as = some (.panic g)) :
+    ∃ m, m ≤ v.length ∧ ∀ i, g i = if off ≤ i ∧ i < off + m then v.getD (i - off) 0 else f i := by
+  obtain ⟨⟨m, hm, hp⟩, _⟩ := loop_inv v off f as f 0 (Nat.zero_le _) (partial_zero f v off) _ h
+  exact ⟨m, hm, hp⟩
+
+open GooseVerif.Model.ShortWrite in
+/-- The loop does not give up on a kernel that makes progress: counts ≥ 1 and no error let it finish within `len(v)` calls. -/
+theorem write_completes_under_progress (v : List Byte) (off : Nat) (f : File) (as : List Ans)
+    (hall : ∀ a ∈ as, ∃ k, a = .wrote k ∧ 0 < k) (hl : v.length ≤ as.length) :
+    ∃ g, writeLoop v off f 0 as = some (.ok g) ∧ g = written f v off := by
+  obtain ⟨g, hg⟩ := loop_progress v off as f 0 hall (by omega)
+  exact ⟨g, hg, write_returns_exact v off f g as hg⟩
+
+open GooseVerif.Model.ShortWrite in
+/-- Contrast (the loop with the offset not advanced, as in the seeded change C09-m17): it returns normally with the tail of the
+block written over its head. -/
+theorem no_advance_is_wrong :
+    ∃ g, writeLoopNoAdvance [1, 2, 3, 4] 8 (fun _ => 0) 0 [.wrote 3, .wrote 1] = some (.ok g) ∧
+      g 8 = 4 ∧ g ≠ written (fun _ => 0) [1, 2, 3, 4] 8 := by
+  refine ⟨_, rfl, by decide, fun h => ?_⟩
+  have := congrFun h 8
+  revert this
+  decide
+
 /-! ### non-vacuity -/
+
+open GooseVerif.Model.ShortWrite in
+example : ∃ g, writeLoop [1, 2, 3, 4] 8 (fun _ => 9) 0 [.wrote 3, .wrote 7] = some (.ok g) ∧
+    (List.range 14).map g = [9, 9, 9, 9, 9, 9, 9, 9, 1, 2, 3, 4, 9, 9] := ⟨_, rfl, by decide⟩
+open GooseVerif.Model.ShortWrite in
+example : ∃ g, writeLoop [1, 2, 3, 4] 8 (fun _ => 9) 0 [.wrote 3, .err] = some (.panic g) ∧
+    (List.range 14).map g = [9, 9, 9, 9, 9, 9, 9, 9, 1, 2, 3, 9, 9, 9] := ⟨_, rfl, by decide⟩
+open GooseVerif.Model.ShortWrite in
+example : ∃ g, writeLoop [1, 2, 3, 4] 8 (fun _ => 9) 0 [.wrote 2, .wrote 0] = some (.panic g) ∧ g 9 = 2 ∧ g 10 = 9 :=
+  ⟨_, rfl, by decide, by decide⟩
+
 
 example : validRun 2 (specInit 2 3, [[7, 7], [9, 9]]) [.write 1 0, .readTo 1 1, .read 1, .write 5 0, .size] = true := by decide
 example : (run 2 (memImpl 2) (memInit 2 3, [[7, 7], [9, 9]]) [.write 1 0, .poke 0 0 1, .read 1, .write 5 0, .size]).2
